@@ -38,22 +38,29 @@ AEvents(e, h) == LET q == SelectSeq(e.ev, LAMBDA x : x.h = h)
 \* Follow the logged atomic deletion events in order (see Cache!O0): an event is either raised by one of the
 \* operation's pending micro-writes (executed then), or an automatic removal that must be justified in the
 \* state reached so far (Cache!AutoOK); micro-writes that raise no event are executed when an event needs
-\* them, or at the end.  ph: remaining phases, q: remaining events.
+\* them, or when their phase ends.  The driver logs a marker "L" whenever a loader is invoked: the writes of
+\* a loader phase happen after its marker and before the next one.
+\* cur: micro-writes of the active phase, rest: phases not yet started, q: remaining events and markers.
 Acc0 == [bad |-> <<>>, missing |-> <<>>, refany |-> {}, nov |-> 0, nex |-> 0, wov |-> 0, wex |-> 0, evk |-> {}]
-RECURSIVE RunMW(_, _, _, _, _)
-RunMW(st, ph, q, acc, early) ==
-    IF ph # <<>> /\ Head(ph) = {} THEN RunMW(st, Tail(ph), q, IF early THEN acc ELSE [acc EXCEPT !.evk = {}], early)
+RECURSIVE RunMW(_, _, _, _, _, _)
+RunMW(st, cur, rest, q, acc, early) ==
+    IF cur # {} /\ (q = <<>> \/ Head(q).c = "L")
+    THEN \* the active phase ends: apply what is left of it
+         LET w == CHOOSE x \in cur : \A y \in cur : x.k <= y.k
+             drop == Dropped(w, acc.evk)
+         IN RunMW(IF drop THEN st ELSE ExecMW(st, w), cur \ {w}, rest, q,
+                  IF drop THEN acc
+                  ELSE [acc EXCEPT !.missing = @ \o EvMW(st, w), !.refany = @ \cup RefAnyMW(st, w)], early)
     ELSE IF q = <<>> THEN
-        IF ph = <<>> THEN [s |-> st, acc |-> acc]
-        ELSE LET w == CHOOSE x \in Head(ph) : \A y \in Head(ph) : x.k <= y.k
-                 drop == Dropped(w, acc.evk)
-             IN RunMW(IF drop THEN st ELSE ExecMW(st, w), <<Head(ph) \ {w}>> \o Tail(ph), q,
-                      IF drop THEN acc
-                      ELSE [acc EXCEPT !.missing = @ \o EvMW(st, w), !.refany = @ \cup RefAnyMW(st, w)], early)
+         IF rest = <<>> THEN [s |-> st, acc |-> acc]
+         ELSE RunMW(st, Head(rest), Tail(rest), q, acc, early)          \* a phase whose loader call was not logged
+    ELSE IF Head(q).c = "L" THEN
+         IF rest = <<>> THEN RunMW(st, {}, rest, Tail(q), acc, early)
+         ELSE RunMW(st, Head(rest), Tail(rest), Tail(q), IF early THEN acc ELSE [acc EXCEPT !.evk = {}], early)
     ELSE
         LET ev   == Head(q)
-            cand == IF ph = <<>> THEN {} ELSE {w \in Head(ph) : w.k = ev.k /\ ~Dropped(w, acc.evk) /\ EvMW(st, w) = <<ev>>}
-            sil  == IF ph = <<>> THEN {} ELSE {w \in Head(ph) : Dropped(w, acc.evk) \/ EvMW(st, w) = <<>>}
+            cand == {w \in cur : w.k = ev.k /\ ~Dropped(w, acc.evk) /\ EvMW(st, w) = <<ev>>}
+            sil  == {w \in cur : Dropped(w, acc.evk) \/ EvMW(st, w) = <<>>}
             inK  == ev.k \in Keys(st)
             wgt  == IF inK /\ st.ent[ev.k].p THEN st.ent[ev.k].w ELSE 0
             cnt(ac) == [ac EXCEPT !.nov = @ + (IF ev.c = "Overflow" THEN 1 ELSE 0),
@@ -63,16 +70,17 @@ RunMW(st, ph, q, acc, early) ==
                                   !.evk = @ \cup {ev.k}]
         IN IF cand # {}
            THEN LET w == CHOOSE x \in cand : TRUE
-                IN RunMW(ExecMW(st, w), <<Head(ph) \ {w}>> \o Tail(ph), Tail(q),
+                IN RunMW(ExecMW(st, w), cur \ {w}, rest, Tail(q),
                          [acc EXCEPT !.refany = @ \cup RefAnyMW(st, w)], early)
-           ELSE IF AutoOK(st, ev) THEN RunMW(Auto(st, ev), ph, Tail(q), cnt(acc), early)
+           ELSE IF AutoOK(st, ev) THEN RunMW(Auto(st, ev), cur, rest, Tail(q), cnt(acc), early)
            ELSE IF sil # {}
            THEN LET w == CHOOSE x \in sil : \A y \in sil : x.k <= y.k
                     drop == Dropped(w, acc.evk)
-                IN RunMW(IF drop THEN st ELSE ExecMW(st, w), <<Head(ph) \ {w}>> \o Tail(ph), q,
+                IN RunMW(IF drop THEN st ELSE ExecMW(st, w), cur \ {w}, rest, q,
                          IF drop THEN acc ELSE [acc EXCEPT !.refany = @ \cup RefAnyMW(st, w)], early)
-           ELSE RunMW(IF inK /\ st.ent[ev.k].p /\ st.ent[ev.k].v = ev.v THEN Auto(st, ev) ELSE st, ph, Tail(q),
-                      [cnt(acc) EXCEPT !.bad = Append(@, ev)], early)
+           ELSE RunMW(IF inK /\ st.ent[ev.k].p /\ st.ent[ev.k].v = ev.v THEN Auto(st, ev) ELSE st, cur, rest, Tail(q),
+                      [cnt(acc) EXCEPT !.bad = Append(@, [k |-> ev.k, v |-> ev.v, c |-> ev.c, total |-> Total(st), max |-> st.max,
+                                                            ent |-> IF inK THEN st.ent[ev.k] ELSE Absent, now |-> st.now])], early)
 
 NormRR(q) == {[k |-> q[j].k, v |-> IF q[j].err = "" THEN q[j].v ELSE 0, err |-> q[j].err] : j \in DOMAIN q}
 KVSet(q)  == {<<q[j].k, q[j].v>> : j \in DOMAIN q}
@@ -117,6 +125,7 @@ Resync(st, e) ==
 
 TraceStep(st, e, line) ==
     IF e.t = "hdr" THEN [s |-> InitState(e.cfg, e.now), dev |-> <<>>]
+    ELSE IF e.hang = 1 THEN [s |-> st, dev |-> <<D(line, e, PreClass(st, e.a.k), "hang", "returns", "no return")>>]
     ELSE
     LET a    == e.a
         pre  == PreClass(st, a.k)
@@ -124,7 +133,10 @@ TraceStep(st, e, line) ==
         o    == r.o
         logA == AEvents(e, "A")
         logD == AEvents(e, "D")
-        rm   == RunMW(r.s, o.mw, logA, Acc0, o.early)
+        logAL == LET q == SelectSeq(e.ev, LAMBDA x : x.h \in {"A", "L"})
+                 IN [j \in DOMAIN q |-> [k |-> q[j].k, v |-> q[j].v, c |-> IF q[j].h = "L" THEN "L" ELSE q[j].c]]
+        rm   == IF o.gated THEN RunMW(r.s, {}, o.mw, logAL, Acc0, o.early)
+                ELSE RunMW(r.s, IF o.mw = <<>> THEN {} ELSE Head(o.mw), IF o.mw = <<>> THEN <<>> ELSE Tail(o.mw), logAL, Acc0, o.early)
         af   == rm.acc
         s2   == rm.s
         \* eviction counters: every Overflow removal, plus expiration sweeps; an Expiration event that
@@ -161,6 +173,7 @@ TraceStep(st, e, line) ==
         devs == FieldDevs(line, e, pre, o) \o evDevs
                 \o AllProjDevs(line, e, pre, s2, 0, af.refany)
                 \o (IF e.est # Cardinality(Phys(s2)) THEN <<D(line, e, pre, "est", Cardinality(Phys(s2)), e.est)>> ELSE <<>>)
+                \o (IF e.inflight # 0 THEN <<D(line, e, pre, "inflight", 0, e.inflight)>> ELSE <<>>)
                 \o (IF e.now # s2.now THEN <<D(line, e, pre, "now", s2.now, e.now)>> ELSE <<>>)
                 \o statDevs
                 \o (IF ~BoundOK(s2) THEN <<D(line, e, pre, "bound", <<"max", s2.max>>, <<"total", Total(s2)>>)>> ELSE <<>>)
